@@ -28,6 +28,7 @@ META = {
         "no other instant; per (cron schedule, polled minute) #sends = [expression matches, by an independent matcher]; per "
         "one-shot exactly one send, not before its time and within 1 s after it (at the first poll that lists it when "
         "already past); an injected fault removes only its own occurrence. distinct_nontrivial = distinct event logs at the horizon."
+        " Three to five one-shots of one source, all with a positive delay after the same poll."
     ),
     "assumptions": [
         "timers fire exactly at their deadline (never early) and the wall clock equals the loop clock; local zone is UTC",
@@ -248,6 +249,12 @@ def scenarios(tier: str) -> List[Dict[str, Any]]:
                 for j, s in enumerate(st):
                     srcs[j % nsrc]["schedules"].append(s)
                 out.append({"start_us": start, "horizon_min": hz, "latency_us": lat, "sources": srcs, "level": 0})
+        # three to five one-shots of ONE source, all with a positive delay after the same poll
+        b1 = (start // MIN_US + 1) * MIN_US
+        for offs in ((10, 20, 40), (10, 10, 30), (5, 10, 20, 40), (3, 6, 12, 24, 48)):
+            shots = [{"tag": f"d{j}_{o}", "at_us": b1 + o * SEC + 250_000} for j, o in enumerate(offs)]
+            out.append({"start_us": start, "horizon_min": hz, "latency_us": 0, "level": 0,
+                        "sources": [{"kind": "list", "schedules": shots + [alpha[0]]}]})
         # real LabelScheduleSource
         for st in [(alpha[0], alpha[4]), (alpha[8],), (alpha[3], alpha[6], alpha[2]), (alpha[9], alpha[10])]:
             for lat in (0, 400_000):
